@@ -51,6 +51,14 @@ def wrap(v, t):
     return v
 
 
+def _on_this(e):
+    """member expression on the current object, directly or through anonymous union / struct layers"""
+    b = strip_lv(e.get('b') or {'k': 'this'})
+    while b.get('k') == 'mem' and not b.get('f'):
+        b = strip_lv(b.get('b') or {'k': 'this'})
+    return b.get('k') == 'this'
+
+
 class Run:
     def __init__(self, prog, f, bufs, ptr_params=None, int_params=None, mem_ptrs=None, call_ptrs=None, growable=(), mems=None, depth=0, budget=None, methods=None, ignore=None, objects=False):
         self.prog, self.f = prog, f
@@ -133,7 +141,7 @@ class Run:
         k = e.get('k')
         if k == 'var':
             return ('var', e['id'], T(self.f, e.get('dt') or e.get('t')))
-        if k == 'mem' and strip_lv(e.get('b') or {'k': 'this'}).get('k') == 'this':
+        if k == 'mem' and _on_this(e):
             return ('mem', e['f'], T(self.f, e.get('t')))
         if k == 'un' and e.get('op') == '*':
             return ('buf', self.val(e['e']), T(self.f, e.get('t')), e.get('l'))
@@ -347,6 +355,8 @@ class Run:
         k = e.get('k')
         if k == 'int':
             return e['v']
+        if k == 'float' and 'v' in e:
+            return float(e['v'])
         if 'cv' in e and k not in ('var',):
             return e['cv']
         if k == 'cast':
@@ -378,6 +388,25 @@ class Run:
                 return wrap(v, T(self.f, e.get('t')))
             if ck in ('LValueToRValue', 'NoOp', 'BitCast', 'FunctionToPointerDecay', 'IntegralToPointer'):
                 return v
+            if ck == 'IntegralToFloating' and isinstance(v, int):
+                tt = T(self.f, e.get('t'))
+                if tt.get('bits') == 32 or tt.get('s') == 'float':
+                    import struct
+                    return struct.unpack('f', struct.pack('f', float(v)))[0]
+                return float(v)
+            if ck == 'FloatingToIntegral' and isinstance(v, float):
+                if v != v or v in (float('inf'), float('-inf')):
+                    raise Unsupported('conversion of a non-finite value to an integer')
+                return wrap(int(v), T(self.f, e.get('t')))
+            if ck == 'FloatingCast' and isinstance(v, float):
+                tt = T(self.f, e.get('t'))
+                if tt.get('s') == 'float':
+                    import struct
+                    try:
+                        return struct.unpack('f', struct.pack('f', v))[0]
+                    except OverflowError:
+                        return float('inf') if v > 0 else float('-inf')
+                return v
             if ck in ('IntegralToFloating', 'FloatingToIntegral', 'FloatingCast'):
                 return v
             return v
@@ -396,7 +425,7 @@ class Run:
             if ('O', e['id']) in self.bufs:
                 return ('P', ('O', e['id']), 0)
             raise Unsupported('variable %s' % e.get('n'))
-        if k == 'mem' and strip_lv(e.get('b') or {'k': 'this'}).get('k') != 'this':
+        if k == 'mem' and not _on_this(e):
             base = self.val(e['b'])
             if isinstance(base, dict) and e.get('f') in base:
                 return base[e['f']]
